@@ -1,6 +1,7 @@
 /- C14 line-protocol driver (core-only). See harness/p14/p14.go for the line format. -/
 import BV.Common.Hex
 import BV.C14.Model
+import BV.C14.Warn
 namespace BV.C14.Driver
 open BV.Hex
 
@@ -39,6 +40,7 @@ inductive Q
   | active (id : Nat) (n : Int)
   | version (n : Int)
   | cache (id : Nat)
+  | warn (bit : Nat) (n : Int)
 
 def parseQuery? (s : String) : Option Q :=
   let kind := s.take 1 |>.toString
@@ -51,6 +53,7 @@ def parseQuery? (s : String) : Option Q :=
       let a ← a.toNat?
       if kind == "s" || kind == "d" then some (.state a n)
       else if kind == "a" then some (.active a n)
+      else if kind == "w" then some (.warn a n)
       else none
   | [a] => do
     let a ← a.toNat?
@@ -63,7 +66,7 @@ def wf (net : Net) (n : Node) : Bool := decide (2 ≤ net.window) && Spec.mtpMon
 structure Ctx where
   net : Net
   nodes : Array Node
-  cs : Model.ChainSt
+  inst : Warn.Inst
 
 def nodeAt (cx : Ctx) (n : Int) : Option Node :=
   if n < 0 then some [] else cx.nodes[n.toNat]?
@@ -74,14 +77,15 @@ def ansStr (active : Bool) : Spec.Answer → String
   | .unknownId => "err"
   | .panic => "panic"
 
-/-- One query: `Model.runQuery` runs (and threads the caches). On well-formed histories the answer
-    printed is `Spec.answer` (they agree by `state_eq_spec`; a disagreement would print `DIVERGE`);
-    elsewhere the Model's answer is printed (ties the model to the code outside the hypotheses). -/
-def ask (cx : Ctx) (q : Spec.Query) (active : Bool) : Ctx × String :=
-  let (cs', a) := Model.runQuery cx.net cx.cs q
-  let cx' := { cx with cs := cs' }
+/-- One query: `Warn.runQ` (the model of the whole chain instance) runs and threads the caches. On
+    well-formed histories the answer printed is the Spec's (`Warn.specAnswer`; they agree by
+    `history_eq_spec`, a disagreement would print `DIVERGE`); elsewhere the Model's answer is
+    printed (ties the model to the code outside the theorems' hypotheses). -/
+def ask (cx : Ctx) (q : Warn.Q) (active : Bool) : Ctx × String :=
+  let (inst', a) := Warn.runQ cx.net cx.inst q
+  let cx' := { cx with inst := inst' }
   if wf cx.net q.node then
-    let sa := Spec.answer cx.net (cx.cs.map (·.1)) q
+    let sa := Warn.specAnswer cx.net (cx.inst.cs.map (·.1)) q
     (cx', if sa == a then ansStr active sa else "DIVERGE:" ++ ansStr active sa ++ "/" ++ ansStr active a)
   else (cx', ansStr active a)
 
@@ -89,23 +93,26 @@ def runQuery (cx : Ctx) (q : Q) : Ctx × String :=
   match q with
   | .state id n =>
     match nodeAt cx n with
-    | some nd => ask cx (.state id nd) false
+    | some nd => ask cx (.dep (.state id nd)) false
     | none => (cx, "bad-op")
   | .active id n =>
     match nodeAt cx n with
-    | some nd => ask cx (.state id nd) true
+    | some nd => ask cx (.dep (.state id nd)) true
     | none => (cx, "bad-op")
   | .version n =>
     match nodeAt cx n with
-    | some nd => ask cx (.version nd) false
+    | some nd => ask cx (.dep (.version nd)) false
+    | none => (cx, "bad-op")
+  | .warn bit n =>
+    match nodeAt cx n with
+    | some nd => ask cx (.warn bit nd) false
     | none => (cx, "bad-op")
   | .cache id =>
-    match cx.cs[id]? with
-    | some (_, c) =>
-      (cx, String.ofList (cx.nodes.toList.map fun nd =>
-        match Model.Cache.get c nd with
-        | none => '-'
-        | some s => Char.ofNat (48 + Spec.St.code s)))
+    -- `cache_sound`: every entry of the model's cache is the BIP9 state of its node; the same is
+    -- demanded of the real cache (checked on the Go side against a fresh instance).
+    match cx.inst.cs[id]? with
+    | some (d, c) =>
+      (cx, if c.all (fun e => e.2 == Spec.bip9State cx.net d e.1) then "ok" else "DIVERGE")
     | none => (cx, "bad-op")
 
 def runAll (cx : Ctx) : List Q → List String → List String
@@ -120,7 +127,7 @@ def handle : List String → String
           parseNodes? (nodes.splitOn ","), (queries.splitOn ",").mapM parseQuery? with
     | some w, some t, some ds, some ns, some qs =>
       if ds.length ≠ 6 then "bad-op" else
-      let cx : Ctx := ⟨⟨w, t⟩, ns, Model.fresh ds⟩
+      let cx : Ctx := { net := ⟨w, t⟩, nodes := ns, inst := Warn.freshInst ds }
       let outs := runAll cx qs []
       if outs.contains "bad-op" then "bad-op"
       else if outs.contains "panic" then "panic"   -- a Go panic aborts the whole line
